@@ -16,6 +16,8 @@ CONSTANTS Mode, MaxOps, MaxHist,
           ConcQuotas, ConcKinds,                                       \* "conc": quota values, kinds of creation
           Main,                                                        \* the tenant the generated calls are for; the others
                                                                        \* of Tenants are neighbours holding a little data
+          OpTenants,                                                   \* "seq": tenants the generated calls are for (Main, and
+                                                                       \* possibly neighbours: one request stream, several tenants)
           SeedMain,                                                    \* Main starts with nodes 1 and 2 (relationship-only alphabets)
           CrashOn,                                                     \* "seq": crashes inside calls are explored
           Race                                                         \* KF_C18_CheckThenActRace is part of Next
@@ -41,7 +43,7 @@ Ops ==
       \cup {[op |-> "DeleteEdge", t |-> t, id |-> i] : i \in EdgeIds}
       \cup {[op |-> "UpdateNode", t |-> t, id |-> i, p |-> v] : i \in NodeIds, v \in UpdateVals}
       \cup {[op |-> "UpdateEdge", t |-> t, id |-> i, p |-> v] : i \in EdgeIds, v \in UpdateVals}
-      : t \in {Main}}
+      : t \in OpTenants}
 
 \* Calls whose effect the properties leave open are not generated: creating an id that exists
 \* (replace or refuse?) and deleting a node that still has relationships (cascade or not?).
